@@ -603,6 +603,9 @@ def install():
     xrun.report_eoj = lambda: None
     xrun.progress = lambda *a, **kw: None
     preinit_types()
+    from . import cliops
+
+    cliops.install()
 
 
 def preinit_types():
@@ -684,6 +687,7 @@ class World:
         self.dir2x = {}
         self.ident = {}        # x -> identifier
         self.on_spawn = []
+        self.on_kill = []
         self.on_body_start = []
         self.state_listeners = []
         self.jobx = {}         # id(job) -> x
@@ -829,6 +833,8 @@ class World:
         if proc.kind == "job":
             self.dead_job_pids.append(pid)
         self.k.log("proc-killed", kind=proc.kind, pid=pid, x=proc.x, sig=int(sig), where=where)
+        for f in self.on_kill:
+            f(proc)
         self.k.count("fault:%s-kill" % proc.kind)
 
     def terminate_current(self, code):
